@@ -67,7 +67,8 @@ def model_line(cid, sg: Graph, dg: Graph, opts=None, focus=(), use_shapes=(), rx
     with wire.case_cache():
         line = _model_line(cid, sg, dg, opts, focus, use_shapes, rx)
         if sparql is not None:
-            sols, tmpl = sparql
+            sols, tmpl = sparql[0], sparql[1]
+            vals = sparql[2] if len(sparql) > 2 else []
             toks = ["SPQ", str(len(sols))]
             for c, f, rows in sols:
                 toks += [wire.term(c), wire.term(f), str(len(rows))]
@@ -81,6 +82,18 @@ def model_line(cid, sg: Graph, dg: Graph, opts=None, focus=(), use_shapes=(), rx
                 toks += [wire.term(c), "%d" % bool(t.get("minus")), "%d" % bool(t.get("values")), "%d" % bool(t.get("service")),
                          (",".join(t["nested"]) or ",") if t.get("nested") is not None else "-", t.get("asVar") or "-",
                          "%d" % bool(t.get("usesPath")), "%d" % bool(t.get("usesSG"))]
+            toks += ["VAL", str(len(vals))]
+            for v, shp, f, x, kind, ans in vals:
+                toks += [wire.term(v), wire.term(shp), wire.term(f), wire.term(x)]
+                if kind == "ask":
+                    toks += ["A", "1" if ans else "0"]
+                else:
+                    toks += ["R", str(len(ans))]
+                    for row in ans:
+                        items = sorted(row.items())
+                        toks.append(str(len(items)))
+                        for k, t in items:
+                            toks += [wire.esc(k), wire.term(t)]
             line += " " + " ".join(toks)
         return line
 
